@@ -107,6 +107,13 @@ def run_check(pid, tier, replay=None):
             c = racy[k % len(racy)] if racy else None
             if c:
                 todo.append({"id": "f-race-%d" % k, "layout": "k8s", "ops": [dict(o, pause=0, mid=False) for o in c["ops"]]})
+        # direct layout, after an atomic replacement (the watch on the old inode is dead, only the directory watch reports
+        # writes: one event per rewrite): a rewrite, and a second one landing between the loop's read and its report
+        for k in range(80 if quick else 600):
+            a, b = ("g0", "g1") if k % 2 else ("g1", "g0")
+            todo.append({"id": "f-rw-%d-n" % k, "layout": "direct",
+                         "ops": [{"op": "tmp", "c": b, "pause": 0, "mid": False}, {"op": "rename", "c": b, "pause": rng.choice([0, 150]), "mid": False},
+                                 {"op": "write", "c": a, "pause": 0, "mid": False}, {"op": "write", "c": b, "pause": 0, "mid": True}]})
         for k in range(1 if quick else 4):
             todo.append({"id": "f-overflow-%d" % k, "layout": "overflow", "ops": []})
         results, crashes = run_cases(vh, scratch, todo, workers=8 if quick else 16, subcmd="fw")
